@@ -115,26 +115,26 @@ class SrtContext:
 
       if self._text_formatting:
         if font_color is not None:
-          self._paragraphs[-1].append_text(style.FONT_COLOR_TAG_IN.format(font_color))
+          self._paragraphs[-1].append_tag(style.FONT_COLOR_TAG_IN.format(font_color))
         if is_bold:
-          self._paragraphs[-1].append_text(style.BOLD_TAG_IN)
+          self._paragraphs[-1].append_tag(style.BOLD_TAG_IN)
         if is_italic:
-          self._paragraphs[-1].append_text(style.ITALIC_TAG_IN)
+          self._paragraphs[-1].append_tag(style.ITALIC_TAG_IN)
         if is_underlined:
-          self._paragraphs[-1].append_text(style.UNDERLINE_TAG_IN)
+          self._paragraphs[-1].append_tag(style.UNDERLINE_TAG_IN)
 
       for elem in list(element):
         self.append_element(elem, begin, end)
 
       if self._text_formatting:
         if is_underlined:
-          self._paragraphs[-1].append_text(style.UNDERLINE_TAG_OUT)
+          self._paragraphs[-1].append_tag(style.UNDERLINE_TAG_OUT)
         if is_italic:
-          self._paragraphs[-1].append_text(style.ITALIC_TAG_OUT)
+          self._paragraphs[-1].append_tag(style.ITALIC_TAG_OUT)
         if is_bold:
-          self._paragraphs[-1].append_text(style.BOLD_TAG_OUT)
+          self._paragraphs[-1].append_tag(style.BOLD_TAG_OUT)
         if font_color is not None:
-          self._paragraphs[-1].append_text(style.FONT_COLOR_TAG_OUT)
+          self._paragraphs[-1].append_tag(style.FONT_COLOR_TAG_OUT)
 
     if isinstance(element, (model.Ruby, model.Rbc, model.Rb)):
       # ruby annotations cannot be expressed in SRT: only the base text is written
